@@ -176,6 +176,10 @@ func (u *vfC04Up) ServeDNS(ctx context.Context, ch *middleware.Chain) {
 			use(ttl)
 			use(spec.SOATTL)
 			use(spec.SOAMin)
+		case "nx-bare":
+			// NXDOMAIN with empty sections: nothing in it carries a TTL, the cache keeps it for its floor
+			resp.Rcode = dns.RcodeNameError
+			use(0)
 		case "nx", "nodata":
 			if spec.Kind == "nx" {
 				resp.Rcode = dns.RcodeNameError
@@ -299,6 +303,7 @@ func vfC04Run(t *testing.T, dir string, c *vfC04Case) (violation string, stats m
 		}()
 		w := &vfWorld{s: s, cfg: cfg}
 		lastTTL := map[string]uint32{} // "question|fetch|rr" -> last TTL shown
+		fetchStep := map[int]int{}     // fetch index -> step it happened in
 		fail := func(format string, a ...any) {
 			if violation == "" {
 				violation = fmt.Sprintf(format, a...)
@@ -321,7 +326,7 @@ func vfC04Run(t *testing.T, dir string, c *vfC04Case) (violation string, stats m
 			case "block":
 				// only questions that are never the target of an alias chase: an internal call for them
 				// can only be a background refresh, never part of the client's own call stack
-				if n := c.Qs[st.Q].Name; n == "www.example.org." || n == "alias.example.org." || n == "nodata-t.example.org." {
+				if n := c.Qs[st.Q].Name; n == "www.example.org." || n == "alias.example.org." || n == "nodata-t.example.org." || n == "barenx.example.org." {
 					continue
 				}
 				up.mu.Lock()
@@ -380,6 +385,9 @@ func vfC04Run(t *testing.T, dir string, c *vfC04Case) (violation string, stats m
 			up.mu.Lock()
 			fetches := append([]*vfC04Fetch(nil), up.fetches...)
 			up.mu.Unlock()
+			for _, f := range fetches[before:] {
+				fetchStep[f.Idx] = si
+			}
 			freshThisStep := map[int]bool{}
 			for _, f := range fetches[before:] {
 				if !f.Blocked || f.Released > 0 {
@@ -396,6 +404,41 @@ func vfC04Run(t *testing.T, dir string, c *vfC04Case) (violation string, stats m
 			}
 			line := fmt.Sprintf("t=%s %s cd=%v wire=%v -> rcode=%d", now, name, st.CD, st.Wire, r.Msg.Rcode)
 			cacheServed := len(fetches) == before
+			if cacheServed && strings.EqualFold(name, "aliasnx.example.org.") && r.Msg.Rcode == dns.RcodeNameError {
+				// the alias entry now serving was written back by the latest fetch of the alias; if the denial it was
+				// completed with came from cache then (no fetch of the target in that step), the alias entry inherited that
+				// denial's lifetime and cannot still be served once the denial has expired
+				// every fetch of the alias whose CNAME could still be held happened in a step that did not fetch the
+				// target (so each stored alias entry was completed with a cached denial and inherited its remaining
+				// lifetime), and every denial of the target ever fetched has run out: nothing is left to serve this from
+				aliasOnly, any := true, false
+				for _, f := range fetches {
+					if f.Key != vfUpKey("aliasnx.example.org.", dns.TypeA) || now > f.At+300*time.Second {
+						continue
+					}
+					any = true
+					for _, g := range fetches {
+						if g.Key == vfUpKey("barenx.example.org.", dns.TypeA) && fetchStep[g.Idx] == fetchStep[f.Idx] {
+							aliasOnly = false
+						}
+					}
+				}
+				var last *vfC04Fetch
+				for _, g := range fetches {
+					if g.Key == vfUpKey("barenx.example.org.", dns.TypeA) {
+						if last == nil || g.At+g.Life > last.At+last.Life {
+							last = g
+						}
+					}
+				}
+				if any && aliasOnly && last != nil {
+					stats["alias-over-cached-denial"]++
+					if now > last.At+last.Life+time.Second {
+						fail("step %d at t=%s: %s is answered NXDOMAIN from cache, by an alias entry that was completed with a cached denial of its target; the last such denial (fetch #%d at t=%s, lifetime %s) ran out %s ago\nhistory:\n  %s", si, now, name, last.Idx, last.At, last.Life, now-last.At-last.Life, strings.Join(append(sample, line), "\n  "))
+						return
+					}
+				}
+			}
 			if cacheServed {
 				stats["cache-served-replies"]++
 			} else {
@@ -543,6 +586,8 @@ func vfC04GenCase(rt *rapid.T) *vfC04Case {
 		{Name: "aliasnd.example.org.", Qtype: dns.TypeA, Kind: "cname-nodata", Target: "nodata-t.example.org.", TTLs: []uint32{rapid.SampledFrom([]uint32{300, 3600}).Draw(rt, "ttl.aliasnd")},
 			SOATTL: rapid.SampledFrom([]uint32{300, 3600}).Draw(rt, "soattl3"), SOAMin: rapid.SampledFrom([]uint32{10, 60}).Draw(rt, "soamin3"), Scope: -1},
 		{Name: "nodata-t.example.org.", Qtype: dns.TypeA, Kind: "nodata", TTLs: []uint32{0}, SOATTL: 3600, SOAMin: 60, Scope: -1},
+		{Name: "aliasnx.example.org.", Qtype: dns.TypeA, Kind: "cname", Target: "barenx.example.org.", TTLs: []uint32{300}, Scope: -1},
+		{Name: "barenx.example.org.", Qtype: dns.TypeA, Kind: "nx-bare", TTLs: []uint32{0}, Scope: -1},
 		{Name: "w.wild.example.org.", Qtype: dns.TypeA, Kind: "wildcard-signed", TTLs: []uint32{rapid.SampledFrom([]uint32{60, 300, 3600}).Draw(rt, "ttl.wild")},
 			SigLeft: []int{rapid.SampledFrom([]int{-5, 7, 20, 100}).Draw(rt, "wildsigleft")}, Scope: -1},
 	}
@@ -570,6 +615,17 @@ func vfC04GenCase(rt *rapid.T) *vfC04Case {
 			c.Steps = append(c.Steps, vfC04Step{Kind: "sleep", Sleep: time.Second})
 		}
 		c.Steps = append(c.Steps, vfC04Step{Kind: "release"}, ask(), vfC04Step{Kind: "sleep", Sleep: 2 * time.Second}, ask())
+		return c
+	}
+	if rapid.IntRange(0, 7).Draw(rt, "aliasdenial") == 0 {
+		// an alias fetched while the denial of its target is already cached, looked at again after that denial ran out
+		ask := func(qi int) vfC04Step {
+			return vfC04Step{Kind: "query", Q: qi, EDNS: rapid.Bool().Draw(rt, "ad.edns"), DO: rapid.Bool().Draw(rt, "ad.do"), Wire: rapid.Bool().Draw(rt, "ad.wire"), Proto: "udp", Client: 0}
+		}
+		sl := func(choices ...int) vfC04Step {
+			return vfC04Step{Kind: "sleep", Sleep: time.Duration(rapid.SampledFrom(choices).Draw(rt, "ad.sleep")) * time.Second}
+		}
+		c.Steps = append(c.Steps, ask(10), sl(1, 2, 3), ask(9), sl(2, 4, 6, 9, 31, 120), ask(9), sl(1, 5, 60), ask(9))
 		return c
 	}
 	n := rapid.IntRange(3, 16).Draw(rt, "nsteps")
